@@ -306,6 +306,9 @@ func trunc(s string, n int) string {
 
 // solve discharges one query: old z3 first (fast on the common case), then all three raced.
 func solve(q *Query, c *Contracts, dir string, timeout int, cross bool) *SolveResult {
+	if q.short && timeout > 4 {
+		timeout = 4
+	}
 	first := timeout
 	if !q.Cover && !cross && timeout > 4 && q.Run != nil {
 		first = 4
